@@ -80,9 +80,10 @@ CHECKS["C02"] = {
 CHECKS["C05"] = {
     "engine": "E1",
     "technique": "bounded exhaustive differential enumeration: every comment-line text up to length L over the structural alphabet inserted at every position of every small conventional file, real parser on both",
-    "level_text": "for all 21 delimiter/comment configurations, every base file of <= N lines over one line of each kind, every insertion point, "
+    "level_text": "for all 28 delimiter/comment configurations (incl. the empty comment set), every base file of <= N lines over one line of each kind, every insertion point, "
                   "every indentation, every comment character and EVERY text of length <= L over {comment chars, delimiters, blank, quote, brackets, letter, =} "
-                  "is parsed with and without the line by the real code; listings must be identical and both reads must succeed",
+                  "is parsed with and without the line by the real code; listings must be identical and both reads must succeed; the character sets are passed in "
+                  "buffers that held other sets during an unrelated preceding read",
     "level_note": "bounded: N<=2, L<=3 (quick) / L<=4 and N<=3 with L<=3 (thorough); trusted: only the equality test (differential, no hand-written expectation)",
     "rule": "case = (configuration, base file, insertion point, indentation, comment char, text); non-trivial = text contains a structural character, or the line "
             "is indented, or it directly follows an entry line; distinct by construction",
@@ -162,7 +163,7 @@ CHECKS["C12"] = {
     "level_text": "every two-layer tree (x 3 suffix spellings x 5 NULL/empty directory variants x 2 drop-in directory lists) is read through all six entry "
                   "points, every three-layer tree through the two PARSING_DIRS ones; return codes and canonical dumps must agree, the history must equal "
                   "the callback log and the reference list with every member equal to its file read alone, and folding the history with the public "
-                  "econf_mergeFiles must reproduce the merged result",
+                  "econf_mergeFiles must reproduce the merged result; the history size variable holds a non-zero value before the call (output-only argument)",
     "level_note": "bounded: 4 names two-layer / 3 names three-layer (quick), 5 / 4 (thorough); trusted: tree.h reference list, dump equality, ASan/UBSan",
     "rule": "case = (shape, tree); non-trivial = at least two files consulted; distinct by construction",
     "deadline": {"quick": 100, "thorough": 900},
@@ -176,7 +177,7 @@ CHECKS["C12"] = {
 CHECKS["C16"] = {
     "engine": "E1",
     "technique": "deviation-bounded exhaustive enumeration of trees x file attribute assignments x restriction combinations x all eight read entry points on a real tmpfs tree (lchown/symlink)",
-    "level_text": "every small tree, every combination of the three restrictions, every assignment of {foreign owner, foreign group, symlink} in which at most D "
+    "level_text": "every small tree, every combination of the three restrictions (each with and without a permission requirement that all files satisfy), every assignment of {foreign owner, foreign group, symlink} in which at most D "
                   "files deviate from the required attributes, through all eight read entry points: the first consulted violating file decides the error code, "
                   "no content is handed back, compliant trees read as in C01, and after econf_reset_security_settings() everything is accepted again",
     "level_note": "bounded: 2 names, D<=1 (quick) / 3 names, D<=2 (thorough); runs as root (lchown); trusted: tree.h reference list, tmpfs ownership semantics, ASan/UBSan",
@@ -262,7 +263,7 @@ CHECKS["C08"] = {
     "engine": "E1",
     "technique": "exhaustive enumeration of all 2^32 int32/uint32/float patterns and of structured 64-bit/double families through the real typed setter/getter pairs, directly and through write/read",
     "level_text": "thorough: every one of the 2^32 values of int32 and uint32 and every float bit pattern goes through econf_set<T>Value/econf_get<T>Value "
-                  "and must come back bit-exactly (NaN as NaN); int64/uint64/double are covered by deterministic families (limits +-2, all values with <= 3 set "
+                  "and econf_get<T>ValueDef (with a default that differs from the stored value) and must come back bit-exactly (NaN as NaN); int64/uint64/double are covered by deterministic families (limits +-2, all values with <= 3 set "
                   "or cleared bits, +-(10^k+d), 2^k+-d, every 16-bit window at every shift, sign x all 2048 exponents x mantissa patterns incl. subnormals, "
                   "infinities, NaN); all 62 accepted boolean spellings; the same families (and a strided subset of the 32-bit spaces) through "
                   "econf_writeFile + econf_readFile in batches of 256",
@@ -304,7 +305,7 @@ CHECKS["C09"] = {
 CHECKS["C13"] = {
     "engine": "E1",
     "technique": "bounded exhaustive fault injection: one malformed line of each kind at every position of every small conventional file, alone and as each member of a layered read, real parser, expected code/file/line by construction",
-    "level_text": "every conventional file of <= N lines x malformed line {[abc, [abc] x, [], key text} x every position where it cannot be a continuation "
+    "level_text": "every conventional file of <= N lines x malformed line {[abc, [abc] x, [] (flush left; as single file and 2nd drop-in also indented by blanks or a tab), key text} x every position where it cannot be a continuation "
                   "x optional later malformed line of another kind x {single file, main file, 1st/2nd/3rd drop-in of a two-layer read} x 21 configurations: "
                   "specific code of the FIRST malformed line, econf_errLocation = that file's path and 1-based line, nothing partial handed back; plus "
                   "missing file and the frozen code-to-message table",
